@@ -33,6 +33,14 @@ PROPS = {
         "design_ref": "DESIGN.md section 7, C07",
         "assumptions": ["scalars are elements of an arbitrary commutative ring (exact arithmetic)"],
     },
+    "C04": {
+        "claimed": True,
+        "technique": "Coq proof (ring/field/nsatz with sin^2+cos^2=1, angle-sum and half-angle identities over R) over programs translated from the compiled code",
+        "level_text": "every rotation constructor of Mat2/3/4 (both layouts), Quaternion and Vec2 (79 entry points) is translated from the compiled code and proved, for ALL angles and ALL non-zero axes, to equal the textbook matrix (axis rotations) or the Rodrigues matrix of the normalised axis; those are proved orthogonal (both sides), of determinant +1, axis-fixing, counter-clockwise in a right-handed frame, additive for a common axis and independent of the axis length; chained/in-place forms are pre-multiplication; Mat3 = upper-left block of Mat4; the matrix from the (angle,axis) quaternion equals the matrix built directly (half-angle identities); Vec2::rotated_z = Mat2 rotation. No unit test builds a rotation matrix.",
+        "level_note": "Trusted: Coq kernel; stdlib real-number axioms as printed by Print Assumptions (sig_forall_dec, sig_not_dec, functional_extensionality_dep, classic); symx translator (self-checked each run); Rust parametricity. sin/cos/sqrt are the real functions; float rounding is not modelled.",
+        "design_ref": "DESIGN.md section 7, C04",
+        "assumptions": ["scalars are exact real numbers; sin, cos, sqrt are the real functions"],
+    },
 }
 
 for _k in PROPS: PROPS[_k].setdefault("selfcheck", {"quick": 200, "thorough": 5000})
